@@ -160,6 +160,52 @@ def check_case(sink, c, o, seed, idx, pool):  # noqa: C901
     # transform identities
     sink.check(spec.transform() == spec and spec.transform(lambda s: s) == spec and spec.transform(None, lambda s: s) == spec and optree.treespec_transform(spec, lambda s: s, lambda s: s) == spec,
                'transform/identity', 'transform with identity functions is the identity', ident)
+    # transform with per-leaf varying replacements and kind-swapping node functions, against the reference
+    rng2 = gen.case_rng(seed, 'c08tr', idx)
+    pool_descs = [gen.gen_desc(rng2, rng2.choice(['plain', 'seq', 'none']), 5)[0] for _ in range(3)]
+    pool_opts = gen.Opt(o.none_is_leaf, '', 'none', o.dict_mode)
+    pool_specs, pool_shapes = [], []
+    with pool_opts.ctx():
+        for d in pool_descs:
+            t, _ = gen.materialize(d, rng2)
+            pool_shapes.append(refmodel.flatten(t, pool_opts.ref()).shape)
+            pool_specs.append(optree.tree_structure(t, **pool_opts.kw()))
+    counter = [0]
+
+    def f_leaf(s):
+        counter[0] += 1
+        return pool_specs[(counter[0] - 1) % 3]
+
+    def f_node(s):
+        # swap list <-> tuple nodes (same arity), keep everything else
+        if s.kind == optree.PyTreeKind.LIST:
+            return optree.treespec_tuple(s.children(), none_is_leaf=o.none_is_leaf, namespace=s.namespace)
+        if s.kind == optree.PyTreeKind.TUPLE:
+            return optree.treespec_list(s.children(), none_is_leaf=o.none_is_leaf, namespace=s.namespace)
+        return s
+
+    def ref_transform(sh, cnt):
+        import dataclasses as _d
+
+        if sh.kind == 'leaf':
+            cnt[0] += 1
+            return pool_shapes[(cnt[0] - 1) % 3]
+        kids = [ref_transform(ch, cnt) for ch in sh.children]
+        if sh.kind == 'list':
+            return _d.replace(sh, kind='tuple', type=tuple, children=kids)
+        if sh.kind == 'tuple':
+            return _d.replace(sh, kind='list', type=list, children=kids)
+        return _d.replace(sh, children=kids)
+
+    kt, tr = outcome(lambda: spec.transform(f_node, f_leaf))
+    want_shape = ref_transform(ref.shape, [0])
+    dmatch = specview.match(tr, want_shape) if kt == 'ok' else repr(tr)
+    sink.check(kt == 'ok' and dmatch is None, 'transform/varying-vs-reference', 'transform(f_node, f_leaf) with per-leaf replacements and kind-swapping node functions equals the reference', ident,
+               lambda: dict(diff=dmatch, got=repr(tr)[:300]))
+    if kt == 'ok':
+        sink.check(counter[0] == spec.num_leaves, 'transform/leaf-calls', 'f_leaf is applied once per leaf', ident, (counter[0], spec.num_leaves))
+        sink.check(tr.num_leaves == want_shape.num_leaves and tr.num_nodes == want_shape.num_nodes, 'transform/counts', 'counts of the transformed treespec add up', ident)
+        sink.count('transform-varying')
     # compose
     rng = gen.case_rng(seed, 'c08inner', idx)
     inner_desc, _ = gen.gen_desc(rng, rng.choice(['plain', 'mixed', 'dicts', 'none']), 8)
@@ -213,6 +259,7 @@ def finalize(sink, tier, seed):
     sink.require('oracle:inspection methods describe the reference root node')
     sink.require('index-probes')
     sink.require('compose-actual-trees')
+    sink.require('transform-varying', 100)
     for ctor in ('treespec_tuple', 'treespec_list', 'treespec_dict', 'treespec_ordereddict', 'treespec_defaultdict', 'treespec_deque', 'treespec_namedtuple', 'treespec_structseq',
                  'from_collection:custom'):
         sink.require(f'ctor:{ctor}')
